@@ -39,6 +39,20 @@ pub struct Cur { pub bytes: Ghost<Seq<u8>>, pub pos: Ghost<int> }
 
 impl Cur {
     pub open spec fn wf(self) -> bool { 0 <= self.pos@ <= self.bytes@.len() }
+    /// the octets still to be decoded: everything from the read position on
+    pub open spec fn rest(self) -> Seq<u8> { self.bytes@.skip(self.pos@) }
+}
+
+/// `a` is what is left of `b` after some octets were taken from its front
+pub open spec fn is_suffix(a: Seq<u8>, b: Seq<u8>) -> bool { a == b || (a.len() < b.len() && a == b.skip(b.len() - a.len())) }
+
+pub proof fn lemma_suffix_trans(a: Seq<u8>, b: Seq<u8>, c: Seq<u8>)
+    requires is_suffix(a, b), is_suffix(b, c),
+    ensures is_suffix(a, c),
+{
+    if a != b && b != c {
+        assert(c.skip(c.len() - b.len()).skip(b.len() - a.len()) =~= c.skip(c.len() - a.len()));
+    }
 }
 
 #[verifier::external_body]
@@ -88,25 +102,32 @@ impl Header {
 }
 
 impl Decoder {
-    /// the three representation decoders, as seen by the driver: they read forward from the cursor position; on Ok at
-    /// least the first octet was read; the buffer content is not changed (only `consume` commits)
+    /// the three representation decoders, as seen by the driver (PROVED for the real bodies of decode_indexed /
+    /// decode_literal in unit v_decoder_strings): they read forward from the cursor position; on Ok what is left to decode
+    /// is a PROPER suffix of what was left before (a literal string is already cut out of the buffer by `take`, a Huffman
+    /// string or an index only moves the position — either way the same octets are gone); when the input ends inside the
+    /// representation (NeedMore) the buffer content is unchanged (only the position may have moved) — on any other error
+    /// (a decoding error ends the connection) it is at least still a suffix of what it was
     #[verifier::external_body]
     pub fn decode_indexed(&self, buf: &mut Cur) -> (r: Result<Header, DecoderError>)
         requires old(buf).wf(), old(buf).pos@ < old(buf).bytes@.len(),
-        ensures final(buf).wf(), final(buf).bytes@ == old(buf).bytes@, r is Ok ==> final(buf).pos@ > old(buf).pos@,
+        ensures final(buf).wf(), (r matches Err(DecoderError::NeedMore(_))) ==> final(buf).bytes@ == old(buf).bytes@, is_suffix(final(buf).bytes@, old(buf).bytes@),
+            r is Ok ==> is_suffix(final(buf).rest(), old(buf).rest()) && final(buf).rest().len() < old(buf).rest().len(),
     { unimplemented!() }
 
     #[verifier::external_body]
     pub fn decode_literal(&mut self, buf: &mut Cur, index: bool) -> (r: Result<Header, DecoderError>)
         requires old(buf).wf(), old(buf).pos@ < old(buf).bytes@.len(),
-        ensures final(buf).wf(), final(buf).bytes@ == old(buf).bytes@, r is Ok ==> final(buf).pos@ > old(buf).pos@,
+        ensures final(buf).wf(), (r matches Err(DecoderError::NeedMore(_))) ==> final(buf).bytes@ == old(buf).bytes@, is_suffix(final(buf).bytes@, old(buf).bytes@),
+            r is Ok ==> is_suffix(final(buf).rest(), old(buf).rest()) && final(buf).rest().len() < old(buf).rest().len(),
             final(self).max_size_update == old(self).max_size_update && final(self).last_max_update == old(self).last_max_update,
     { unimplemented!() }
 
     #[verifier::external_body]
     pub fn process_size_update(&mut self, buf: &mut Cur) -> (r: Result<(), DecoderError>)
         requires old(buf).wf(), old(buf).pos@ < old(buf).bytes@.len(),
-        ensures final(buf).wf(), final(buf).bytes@ == old(buf).bytes@, r is Ok ==> final(buf).pos@ > old(buf).pos@,
+        ensures final(buf).wf(), (r matches Err(DecoderError::NeedMore(_))) ==> final(buf).bytes@ == old(buf).bytes@, is_suffix(final(buf).bytes@, old(buf).bytes@),
+            r is Ok ==> is_suffix(final(buf).rest(), old(buf).rest()) && final(buf).rest().len() < old(buf).rest().len(),
             final(self).max_size_update == old(self).max_size_update && final(self).last_max_update == old(self).last_max_update,
     { unimplemented!() }
 
@@ -114,8 +135,10 @@ impl Decoder {
     //@attr #[verifier::exec_allows_no_decreases_clause]
     //@subst_re pub fn decode<F>\(\s*&mut self,\s*src: &mut Cursor<&mut BytesMut>,\s*mut f: F,\s*\) -> Result<\(\), DecoderError>\s*where\s*F: FnMut\(Header\) -> ControlFlow<\(\)>, ==>> pub fn decode(&mut self, src: &mut Cur, out: &mut Sink) -> Result<(), DecoderError>
     //@subst f(entry).is_break()=>out.emit(entry)
-    //@before while let Some(ty) = peek_u8(src)=>let ghost mut k: int = 0; proof { assert(src.bytes@.skip(0) =~= src.bytes@); }
-    //@subst consume(src);=>proof { assert(old(src).bytes@.skip(k).skip(src.pos@) =~= old(src).bytes@.skip(k + src.pos@)); k = k + src.pos@; } consume(src);
+    //@before while let Some(ty) = peek_u8(src)=>proof { assert(src.bytes@.skip(0) =~= src.bytes@); assert(is_suffix(src.rest(), old(src).bytes@)); }
+    //@subst consume(src);=>let ghost r1 = src.rest(); consume(src); proof { assert(src.bytes@.skip(0) =~= src.bytes@); assert(src.rest() == r1); }
+    //@subst_re let entry = self\.decode_(indexed|literal)\(src(, (?:true|false))?\)\?; ==>> let ghost r0 = src.rest(); proof { assert(r0 =~= src.bytes@); } let _res = self.decode_\1(src\2); proof { lemma_suffix_trans(src.bytes@, r0, old(src).bytes@); } let entry = _res?; proof { lemma_suffix_trans(src.rest(), r0, old(src).bytes@); }
+    //@subst_re self\.process_size_update\(src\)\?; ==>> let ghost r0 = src.rest(); proof { assert(r0 =~= src.bytes@); } let _res = self.process_size_update(src); proof { lemma_suffix_trans(src.bytes@, r0, old(src).bytes@); } _res?; proof { lemma_suffix_trans(src.rest(), r0, old(src).bytes@); }
     //@subst use self::Representation::*;=>
     //@subst_re \bIndexed => \{ ==>> Representation::Indexed => {
     //@subst_re \bLiteralWithIndexing => \{ ==>> Representation::LiteralWithIndexing => {
@@ -130,14 +153,15 @@ impl Decoder {
     //@spec         old(self).max_size_update is Some ==> final(self).last_max_update == old(self).max_size_update->Some_0 && final(self).max_size_update is None,
     //@spec         old(self).max_size_update is None ==> final(self).last_max_update == old(self).last_max_update && final(self).max_size_update is None,
     //@spec         // what is left in the buffer is a SUFFIX of the fragment: nothing is duplicated, reordered or invented
-    //@spec         exists|k: int| 0 <= k <= old(src).bytes@.len() && final(src).bytes@ == old(src).bytes@.skip(k),
+    //@spec         r is Ok ==> is_suffix(final(src).bytes@, old(src).bytes@),
+    //@spec         r is Err ==> is_suffix(final(src).bytes@, old(src).bytes@),
     //@spec         // Ok: everything was consumed, unless the callback stopped the decoding; and the cursor is at a representation boundary
     //@spec         r is Ok ==> final(src).pos@ == 0,
     //@spec         // fields were only ever appended to the output
     //@spec         final(out).log@.len() >= old(out).log@.len() && final(out).log@.subrange(0, old(out).log@.len() as int) =~= old(out).log@,
     //@loop 0     invariant
     //@loop 0         src.wf() && src.pos@ == 0,                      // I-resume
-    //@loop 0         0 <= k <= old(src).bytes@.len() && src.bytes@ == old(src).bytes@.skip(k),
+    //@loop 0         is_suffix(src.bytes@, old(src).bytes@),
     //@loop 0         self.max_size_update is None,
     //@loop 0         self.last_max_update == (if old(self).max_size_update is Some { old(self).max_size_update->Some_0 } else { old(self).last_max_update }),
     //@loop 0         out.log@.len() >= old(out).log@.len() && out.log@.subrange(0, old(out).log@.len() as int) =~= old(out).log@,
